@@ -496,6 +496,11 @@ func (env *Env) eval(e CExpr) Val {
 		body := inner.evalBool(x.Body)
 		em.usesQuant = true
 		if x.Forall {
+			// forall a :: forall b :: P  becomes one quantifier over (a b): the instantiation pattern then covers
+			// all bound variables (nested single-variable quantifiers have no usable pattern for the outer ones)
+			if binders, innerBody, ok := splitForall(body); ok {
+				return Val{E: fmt.Sprintf("(forall ((%s %s) %s) %s)", v, srt, binders, implies(guard, innerBody)), S: sBool, T: types.Typ[types.Bool]}
+			}
 			return Val{E: fmt.Sprintf("(forall ((%s %s)) %s)", v, srt, implies(guard, body)), S: sBool, T: types.Typ[types.Bool]}
 		}
 		return Val{E: fmt.Sprintf("(exists ((%s %s)) %s)", v, srt, and(guard, body)), S: sBool, T: types.Typ[types.Bool]}
@@ -738,6 +743,17 @@ func (env *Env) call(x *CCall) Val {
 			ref = "(s_arr " + v.E + ")"
 		}
 		return Val{E: fmt.Sprintf("(< %s %s)", ref, em.heapGet(env.st, "top", sInt)), S: sBool, T: types.Typ[types.Bool]}
+	}
+	if name == "any" && len(x.Args) == 1 {
+		// conversion to interface{}: boxes the value with the tag of its Go type
+		v := env.eval(x.Args[0])
+		if v.S == sIface {
+			return v
+		}
+		if v.T == nil || isUntyped(v.T) {
+			env.fail("any(%s): operand needs a definite Go type", x.Args[0])
+		}
+		return env.ex.makeIface(v, v.T, types.NewInterfaceType(nil, nil))
 	}
 	if t, ok := intConvs[name]; ok && len(x.Args) == 1 {
 		if _, shadow := env.ex.eng.CS.Specs[env.pkg.Path()+"."+name]; !shadow {
